@@ -451,6 +451,14 @@ example :
     (runCalls C W Db.init).defer = 0 ∧ (runCalls C W Db.init).acks = [1] ∧ visible (runCalls C W Db.init) = [] ∧
     visible (runCalls Gen.commitMethod W Db.init) = [⟨0, 1, 1⟩] := by decide
 
+/-- mirrored quirk (outside `Batched`): an inner batch left by an exception that is swallowed inside the outer batch
+    zeroes the counter, so the outer batch's normal exit commits nothing — its record is still uncommitted after
+    both batches were left (the harness does not demand such records; `with db:` is unused by the anchored code) -/
+example :
+    let W : List Call := [⟨0, [.enter], 0, 0⟩, ⟨1, [.exec 0 .orIgnore, .callCommit, .ret], 1, 1⟩, ⟨2, [.enter], 0, 0⟩,
+                          ⟨3, [.exitExc], 0, 0⟩, ⟨4, [.exit], 0, 0⟩]
+    (runCalls Gen.commitMethod W Db.init).defer = 0 ∧ visible (runCalls Gen.commitMethod W Db.init) = [] := by decide
+
 /-- non-vacuity: two inserts inside a block, killed after the second has returned: nothing is visible; after the
     exit both are -/
 example :
